@@ -219,6 +219,9 @@ pub enum EntrySpec {
     /// n entries, all of one shape
     Uniform { n: usize, klen: usize, vlen: usize, wide: bool },
     Universe { subset: Vec<usize>, pad: usize },
+    /// n entries; key = [group id = i / per_group, 2 * (i % per_group) + 1] padded to klen with 0x55:
+    /// several long keys share each one-byte prefix, so prefix runs span blocks and index blocks
+    Grouped { n: usize, per_group: usize, klen: usize, vlen: usize },
     /// hex encoded (key, value) pairs
     Explicit(Vec<(String, String)>),
 }
@@ -229,6 +232,13 @@ impl EntrySpec {
             EntrySpec::Shapes { shapes, wide } => make_entries(shapes, *wide),
             EntrySpec::Uniform { n, klen, vlen, wide } => make_entries(&uniform(*n, *klen, *vlen), *wide),
             EntrySpec::Universe { subset, pad } => universe_entries(&universe(), subset, *pad),
+            EntrySpec::Grouped { n, per_group, klen, vlen } => (0..*n)
+                .map(|i| {
+                    let mut k = vec![(i / per_group) as u8 + 1, (2 * (i % per_group) + 1) as u8];
+                    k.resize((*klen).max(2), 0x55);
+                    (k, value_of(i, *vlen))
+                })
+                .collect(),
             EntrySpec::Explicit(v) => {
                 v.iter().map(|(k, v)| (crate::report::unhex(k), crate::report::unhex(v))).collect()
             }
